@@ -1,7 +1,7 @@
 #!/bin/bash
 # thorough.sh <PROP> <REPO> [--facts F]
 # thorough tier = the quick rules on the current tree
-#   + checker self-test: every mutant of selftest/corpus.json for this property is applied to a scratch copy of the
+#   + checker self-test: every mutant of selftest/corpus.json for this property (regex edits and the seeded changes of seeded/*/patch.diff) is applied to a scratch copy of the
 #     repository (outside /repo and /verif), must still compile (cargo check), and the rule must fire with the expected key;
 #   + E-TY compile_fail witnesses (C10, C20);
 # scratch copies and their build output are removed before the script returns.
@@ -29,14 +29,21 @@ target = os.path.join(S, 'target')
 for m in corpus:
     scratch = os.path.join(S, 'repo')
     subprocess.run(['rsync', '-a', '--delete', '--exclude', 'target', '--exclude', '.git', repo.rstrip('/') + '/', scratch + '/'], check=True)
-    path = os.path.join(scratch, m['file'])
-    src = open(path).read()
-    new, n = re.subn(m['from'], lambda _: m['to'], src, count=1, flags=re.S)
     r = {'id': m['id'], 'expect': m['expect']}
-    if n == 0:
-        r['outcome'] = 'not-applicable'   # the anchor text is gone (the tree changed): not a checker failure
-        results.append(r); continue
-    open(path, 'w').write(new)
+    if 'patch' in m:
+        # a seeded change (seeded/<id>/patch.diff, written by an independent sub-agent)
+        pr = subprocess.run(['patch', '-p1', '-s', '--no-backup-if-mismatch', '-i', os.path.join(verif, m['patch'])], cwd=scratch, capture_output=True, text=True)
+        if pr.returncode != 0:
+            r['outcome'] = 'not-applicable'   # the patched code has changed since the seed was written
+            results.append(r); continue
+    else:
+        path = os.path.join(scratch, m['file'])
+        src = open(path).read()
+        new, n = re.subn(m['from'], lambda _: m['to'], src, count=1, flags=re.S)
+        if n == 0:
+            r['outcome'] = 'not-applicable'   # the anchor text is gone (the tree changed): not a checker failure
+            results.append(r); continue
+        open(path, 'w').write(new)
     c = subprocess.run(['cargo', 'check', '--offline', '-q', '--workspace', '--all-targets'], cwd=scratch, env=dict(os.environ, CARGO_TARGET_DIR=target, RUSTFLAGS='-Awarnings'), capture_output=True, text=True)
     if c.returncode != 0:
         r['outcome'] = 'mutant-does-not-compile'
